@@ -277,12 +277,17 @@ def run(ck):
     if ck.obligation("harness migrate --split ran", rc == 0, out[-1500:]):
         go_split = {json.loads(l)["k"]: json.loads(l) for l in open(sp)}
         diffs = []
+        tr = load_translator()
         for s in gen["streams"]:
             g = go_split.get(s["k"], {}).get("stmts") or []
-            if g != s["texts"]:
-                i = next((i for i, (a, b) in enumerate(zip(g, s["texts"])) if a != b), min(len(g), len(s["texts"])))
-                diffs.append("%s: Go getSQLFile gives %d statements, translator %d; first difference at #%d" % (s["file"], len(g), len(s["texts"]), i))
-        ck.obligation("translator split = getSQLFile (hook) on the six embedded scripts", not diffs, "; ".join(diffs))
+            if g == s["texts"]:
+                continue
+            # texts differ: still fine if they are the same statements (e.g. a trailing ';' kept or dropped)
+            gs = [tr.classify(t, tr.Ctx()) for t in g]
+            if gs != s["structs"] or any(d["c"] == "Unclassified" for d in gs):
+                i = next((i for i, (a, b) in enumerate(zip(gs, s["structs"])) if a != b), min(len(g), len(s["texts"])))
+                diffs.append("%s: Go getSQLFile gives %d statements, translator %d; first different statement #%d" % (s["file"], len(g), len(s["texts"]), i))
+        ck.obligation("the translator's split yields the statements of getSQLFile (hook) on the six embedded scripts", not diffs, "; ".join(diffs))
 
     # ---- theorems
     props_ok = ck.coq_props()
@@ -401,6 +406,11 @@ def run(ck):
         c = min((byid[i] for i in mism), key=lambda c: (len(c["faults"] or []), sum(len(r["log"]) for r in c["runs"])))
         ck.violation({"property": "C18", "kind": "model/implementation disagree; the property's oracle still accepts all observed histories",
                       "cfg": c["cfg"], "faults": c["faults"], "broken": "correspondence Migrate.update vs maintenance.Update"}, no_input=True)
+
+    # coq/gen is shared by all runs: make sure no concurrent run (other VERIF_REPO) replaced the lists meanwhile
+    now = json.load(open(os.path.join(vcheck.COQ, "gen", "GenScripts.json")))
+    ck.obligation("coq/gen/GenScripts.* still describe this repository at the end of the run", now == gen,
+                  "GenScripts.json changed during the run (concurrent check with another VERIF_REPO?)")
 
     # ---- coverage
     hist, distinct, points = {}, set(), set()
